@@ -92,7 +92,7 @@ structure Registry where
   casei : Dict (List String) := []                 -- `_units_casei` (sets, in insertion order)
   caseSensitive : Bool := true
   lower : List (Char × Char) := []                 -- non-ASCII lower-casing table (generated)
-  deriving Repr, Inhabited
+  deriving Repr, Inhabited, DecidableEq
 
 def isDimName (s : String) : Bool :=
   match s.toList with
